@@ -98,6 +98,18 @@ def run(ctx):
                 if isinstance(s, ast.AnnAssign) and isinstance(s.target, ast.Name):
                     defined.add(s.target.id)
         subs = [s for s in classes.subclasses(c, strict=True)]
+        # attributes given to the class (or to subclasses built with type(name, (Base,), {...})) by code that runs: setattr(cls, "name", ...),
+        # the namespace dict of a three-argument type() call naming this class among the bases
+        for n_ in ast.walk(c.module.tree):
+            if isinstance(n_, ast.Call) and dotted(n_.func) == "type" and len(n_.args) == 3 and isinstance(n_.args[2], ast.Dict) \
+                    and any(isinstance(b_, ast.Name) and b_.id in {k.name for k in mro} for b_ in ast.walk(n_.args[1])):
+                defined |= {k_.value for k_ in n_.args[2].keys if isinstance(k_, ast.Constant) and isinstance(k_.value, str)}
+            if isinstance(n_, ast.Call) and dotted(n_.func) == "setattr" and len(n_.args) == 3 and isinstance(n_.args[1], ast.Constant) and isinstance(n_.args[1].value, str) \
+                    and isinstance(n_.args[0], ast.Name) and n_.args[0].id not in ("self",):
+                defined.add(n_.args[1].value)
+            if isinstance(n_, ast.Attribute) and isinstance(n_.ctx, ast.Store) and isinstance(n_.value, ast.Name) and getattr(n_, "_class", None) is None \
+                    and getattr(n_, "_func", None) is not None and n_.value.id in {a_.arg for a_ in n_._func.args.args}:
+                defined.add(n_.attr)   # <a parameter of a module-level function>.name = ...: a class decorator / installer at work
         for mname, f in c.methods.items():
             if not f.args.args:
                 continue
